@@ -19,7 +19,7 @@ from .. import core, fsmon, parcommon as PC, pysched
 
 LEVEL = "model_checking"
 
-OPS = ("call1", "call1b", "call2", "reduce_items", "reduce_bytes", "clear", "call1_changed")
+OPS = ("call1", "call1b", "call2", "reduce_items", "reduce_bytes", "clear", "call1_changed", "call1_z", "shelve1")
 INITS = ("empty", "f1", "f1+f2")
 
 
@@ -106,13 +106,16 @@ def run_once(cfg, choices=(), expect=None, record_states=True):
     def make_body(name, op):
         def body():
             try:
-                if cfg["model"] == "threads" and op != "call1_changed":
+                if cfg["model"] == "threads" and op not in ("call1_changed", "call1_z"):
                     mem, cf = shared["mem"], shared["cf"]
                 else:
                     mod = premod[name]
-                    mem = joblib.Memory(work, verbose=0)
+                    mem = joblib.Memory(work, verbose=0, compress=(op == "call1_z"))
                     cf = mem.cache(mod.f)
-                if op in ("call1", "call1b", "call1_changed"):
+                if op == "shelve1":
+                    v = cf.call_and_shelve(1).get()
+                    results[name] = ("ok", v == fval(1, 1), v)
+                elif op in ("call1", "call1b", "call1_changed", "call1_z"):
                     v = cf(1)
                     want = fval(2 if op == "call1_changed" else 1, 1)
                     results[name] = ("ok", v == want, v)
@@ -277,12 +280,14 @@ def plan(ctx):
     quick = ctx.tier == "quick"
     items = []
     pairs = []
-    ops = [o for o in OPS if o != "call1_changed"]
+    ops = [o for o in OPS if o not in ("call1_changed", "call1_z", "shelve1")]
     for a, b in itertools.combinations_with_replacement(ops, 2):
         if a.startswith("reduce") and b.startswith("reduce") or (a, b) == ("clear", "clear"):
             continue
         pairs.append((a, b))
     pairs += [("call1_changed", "reduce_items"), ("call1_changed", "clear"), ("call1_changed", "call2")]
+    # two writers of ONE entry with different encodings (a mixture would be unloadable); a shelved read next to a writer
+    pairs += [("call1", "call1_z"), ("call1_z", "call1_z"), ("shelve1", "call1"), ("shelve1", "call1_z"), ("shelve1", "shelve1")]
     triples = [("call1", "call1b", "clear"), ("call1", "call2", "reduce_items"), ("call1", "clear", "reduce_items")]
     for actors in pairs:
         for init in INITS:
